@@ -26,7 +26,8 @@ package core
 //@
 //@ struct dialer
 //@   lock Mutex level 40
-//@   guarded_by Mutex: closed active asynch redialer reconnTime reconnMinTime reconnMaxTime closeq
+//@   guarded_by Mutex: closed asynch redialer reconnTime reconnMinTime reconnMaxTime closeq
+//@   single_writer Dial Mutex: active
 //@   immutable: d s addr
 //@   nullable: redialer
 //@
